@@ -272,6 +272,18 @@ func newFunc(argc, rets int, f func(vm *VM)) Value {
 	return Value{t: TypeFunc, value: &funcT{Args: argc, Rets: rets, Variadic: variadic, Value: f}}
 }
 
+// popArgs takes the top argc values off the stack and returns them in a slice of
+// their own: a native function owns the arguments it is given (it may keep them, or
+// wrap them in a NewSlice), so they cannot be a window into the live VM stack, which
+// the result of the native and every later push of the script write over.
+func popArgs(vm *VM, argc int) []Value {
+	i := len(vm.stack) - argc
+	a := make([]Value, argc)
+	copy(a, vm.stack[i:])
+	vm.stack = vm.stack[:i]
+	return a
+}
+
 func NewFunc[F func(vm *VM) | func(vm *VM) Value | func(vm *VM, args []Value) | func(v *VM, args []Value) Value | func(v *VM, args []Value) []Value | func(v *VM, args []Value, vargs ...Value) []Value](argc, rets int, fnc F) (res Value) {
 	switch f := any(fnc).(type) {
 	case func(vm *VM): // 0->0
@@ -285,31 +297,23 @@ func NewFunc[F func(vm *VM) | func(vm *VM) Value | func(vm *VM, args []Value) | 
 		})
 	case func(vm *VM, args []Value): // N->0
 		res = newFunc(argc, rets, func(vm *VM) {
-			i := len(vm.stack) - argc
-			a := vm.stack[i:]
-			vm.stack = vm.stack[:i]
+			a := popArgs(vm, argc)
 			f(vm, a)
 		})
 	case func(v *VM, args []Value) Value: // N->1
 		res = newFunc(argc, rets, func(vm *VM) {
-			i := len(vm.stack) - argc
-			a := vm.stack[i:]
-			vm.stack = vm.stack[:i]
+			a := popArgs(vm, argc)
 			vm.stack = append(vm.stack, f(vm, a))
 		})
 	case func(v *VM, args []Value) []Value: // N->M
 		res = newFunc(argc, rets, func(vm *VM) {
-			i := len(vm.stack) - argc
-			a := vm.stack[i:]
-			vm.stack = vm.stack[:i]
+			a := popArgs(vm, argc)
 			vm.stack = append(vm.stack, f(vm, a)...)
 		})
 	case func(v *VM, args []Value, vargs ...Value) []Value: // N,...->M
 		res = newFunc(-argc, rets, func(vm *VM) {
-			i := len(vm.stack) - argc
-			a := vm.stack[i:]
-			vm.stack = vm.stack[:i]
-			vm.stack = append(vm.stack, f(vm, a[:argc-1], a[argc-1].data()...)...)
+			a := popArgs(vm, argc)
+			vm.stack = append(vm.stack, f(vm, a[:argc-1:argc-1], a[argc-1].data()...)...)
 		})
 	}
 	return res
